@@ -37,7 +37,8 @@ shutil.rmtree(BASE, ignore_errors=True)
 os.makedirs(BASE)
 subprocess.run(['git', '-C', '/repo', 'worktree', 'add', '--detach', R, 'HEAD', '-q'], check=True)
 shutil.copyfile('/repo/Cargo.lock', R + '/Cargo.lock')
-subprocess.run(['rsync', '-a', '--exclude', 'work', '--exclude', '.git', '--exclude', 'seeded', '/verif/', V + '/'], check=True)
+SRC = os.environ.get('SWEEP_SRC', '/verif')   # a snapshot of /verif can be swept while /verif is being edited
+subprocess.run(['rsync', '-a', '--exclude', 'work', '--exclude', '.git', '--exclude', 'seeded', SRC.rstrip('/') + '/', V + '/'], check=True)
 for f, old, new in [('harness/Cargo.toml', 'path = "/repo"', 'path = "%s"' % R),
                     ('tools/vlib.py', "'/repo/Cargo.lock'", "'%s/Cargo.lock'" % R),
                     ('tools/extract.py', "REPO = '/repo'", "REPO = '%s'" % R)]:
